@@ -1977,6 +1977,16 @@ class Parallel(Logger):
         """Main function to dispatch parallel tasks."""
 
         self._reset_run_tracking()
+        try:
+            return self._call(iterable)
+        except BaseException:
+            # The call is over and no output generator is left to reset the
+            # running flag (e.g. `iterable` is not iterable): the instance
+            # must stay usable.
+            self._running = False
+            raise
+
+    def _call(self, iterable):
         self.n_tasks = len(iterable) if hasattr(iterable, "__len__") else None
         self._start_time = time.time()
 
